@@ -6,8 +6,9 @@
 (* private objects are always marked private).                             *)
 (*                                                                         *)
 (* Object model  M = [objs, roots, depth]: objs maps a full name to        *)
-(*   [id, name, cls, parent, priv, incontents, bases, mro, subclasses,     *)
-(*    doc, docsrc, xrefs, sumrefs, annrefs, initial, dupname, dupfull]     *)
+(*   [id, qid, name, cls, parent, priv, incontents, bases, mro,            *)
+(*    subclasses, doc, docsrc, xrefs, sumrefs, annrefs, initial, dupname,  *)
+(*    dupfull]   (qid = the percent-encoded full name, urllib.parse.quote) *)
 (*   incontents = FALSE for a superseded duplicate (System.handleDuplicate *)
 (*   keeps it in allobjects as "name 0" but parent.contents holds the new  *)
 (*   definition); xrefs / sumrefs / annrefs are the RESOLVED targets of    *)
@@ -52,7 +53,7 @@ vars == <<cid, feat, depth, nd, mdl, out, phase>>
 Feats == [dup : BOOLEAN, move : BOOLEAN, multi : BOOLEAN, nested : BOOLEAN]
 
 B(id, name, cls, parent, initial) ==
-  [id |-> id, name |-> name, cls |-> cls, parent |-> parent, priv |-> "PUBLIC", incontents |-> TRUE,
+  [id |-> id, qid |-> id, name |-> name, cls |-> cls, parent |-> parent, priv |-> "PUBLIC", incontents |-> TRUE,
    bases |-> <<>>, mro |-> IF cls = "Class" THEN <<id>> ELSE <<>>, subclasses |-> {}, doc |-> TRUE, docsrc |-> id,
    xrefs |-> {}, sumrefs |-> {}, annrefs |-> {}, initial |-> initial, dupname |-> FALSE, dupfull |-> FALSE]
 
@@ -82,8 +83,9 @@ SkelObjs(f) ==
      { B("pk.mod.Sub.Inner", "Inner", "Class", "pk.mod.Sub", "I"),
        [B("pk.mod.Sub.Inner.im", "im", "Function", "pk.mod.Sub.Inner", "I") EXCEPT !.doc = FALSE] } ELSE {})
   \cup (IF f.dup THEN      \* class Dup defined twice in pk/mod.py: the older one becomes "Dup 0" (model.py:1381)
-     { [B("pk.mod.Dup 0", "Dup 0", "Class", "pk.mod", "D") EXCEPT !.incontents = FALSE, !.dupname = TRUE, !.dupfull = TRUE],
-       [B("pk.mod.Dup 0.a", "a", "Function", "pk.mod.Dup 0", "A") EXCEPT !.dupfull = TRUE, !.doc = FALSE],
+     { [B("pk.mod.Dup 0", "Dup 0", "Class", "pk.mod", "D") EXCEPT !.incontents = FALSE, !.dupname = TRUE, !.dupfull = TRUE,
+                                                                   !.qid = "pk.mod.Dup%200"],
+       [B("pk.mod.Dup 0.a", "a", "Function", "pk.mod.Dup 0", "A") EXCEPT !.dupfull = TRUE, !.doc = FALSE, !.qid = "pk.mod.Dup%200.a"],
        B("pk.mod.Dup", "Dup", "Class", "pk.mod", "D"),
        [B("pk.mod.Dup.b", "b", "Function", "pk.mod.Dup", "B") EXCEPT !.doc = FALSE] } ELSE {})
   \cup (IF f.move THEN     \* pk/__init__.py: from pk._impl import Moved; __all__ = ['Moved']  (re-export move)
@@ -116,7 +118,7 @@ Skeleton(f, assign, d) ==
 (***************************************************************************)
 (* 2. Object model read from the projection of a real System (file mode)   *)
 (***************************************************************************)
-Norm(o) == [id |-> o.id, name |-> o.name, cls |-> o.cls, parent |-> o.parent, priv |-> o.priv,
+Norm(o) == [id |-> o.id, qid |-> o.qid, name |-> o.name, cls |-> o.cls, parent |-> o.parent, priv |-> o.priv,
             incontents |-> o.incontents, bases |-> o.bases, mro |-> o.mro, subclasses |-> Range(o.subclasses),
             doc |-> o.doc, docsrc |-> o.docsrc, xrefs |-> {}, sumrefs |-> {}, annrefs |-> {},
             initial |-> o.initial, dupname |-> o.dupname, dupfull |-> o.dupfull]
@@ -157,11 +159,17 @@ PageOf(i)  == IF IsOwn(i) THEN i ELSE Objs[i].parent
 FileOf(i)  == IF SingleRoot /\ PageOf(i) = Roots[1] THEN "index" ELSE PageOf(i)
 FragOf(i)  == IF IsOwn(i) THEN "" ELSE Objs[i].name
 Url(i)     == [file |-> FileOf(i), frag |-> FragOf(i)]
+\* writer.py:120 opens the QUOTED url as a file name: the page of an object whose name needs percent-encoding lies
+\* on disk under the encoded name, while a link to it means the decoded name
+Written(i) == IF FileOf(i) = "index" THEN "index" ELSE Objs[PageOf(i)].qid
 
 \* linker.py:21-47 taglink: NO visibility test (it only logs); a target on the linker's page is shortened to
 \* "#frag", which the browser resolves against the page the fragment is RENDERED on.
 TagLink(t, ctxfile, page) == IF ctxfile # "" /\ FileOf(t) = ctxfile /\ FragOf(t) # ""
-                             THEN [file |-> page, frag |-> FragOf(t)] ELSE Url(t)
+                             THEN [file |-> page, frag |-> FragOf(t)] ELSE Url(t)      \* ctxfile: a FileOf(), page: a Written()
+
+\* taglink(t, page_url = the url of page object p), written on p's own page
+PL(t, p) == TagLink(t, FileOf(p), Written(p))
 
 L(page, u, prod)     == [page |-> page, file |-> u.file, frag |-> u.frag, prod |-> prod, member |-> ""]
 LM(page, u, prod, m) == [page |-> page, file |-> u.file, frag |-> u.frag, prod |-> prod, member |-> m]
@@ -172,9 +180,9 @@ MarkedPrivate(i) == Objs[i].priv = "PRIVATE"          \* util.py:34 css_class
 \* writer.py:113 _writeDocsFor: visible, own page, reached through contents
 ObjPages == {i \in Ids : IsOwn(i) /\ Vis(i) /\ InTree(i)}
 SummaryFiles == {"moduleIndex", "classIndex", "nameIndex", "undoccedSummary", "all-documents"}
-HtmlFiles == {FileOf(i) : i \in ObjPages} \cup SummaryFiles
+HtmlFiles == {Written(i) : i \in ObjPages} \cup SummaryFiles
              \cup (IF Multi THEN {"index"} ELSE {})                     \* summary.py:368 IndexPage
-             \cup (IF SingleRoot THEN {Roots[1]} ELSE {})               \* writer.py:101 symlink <root>.html
+             \cup (IF SingleRoot THEN {Roots[1]} ELSE {})               \* writer.py:101 symlink <root>.html (not quoted)
 
 \* pages/__init__.py:303 methods(): what gets a detail block (function-child.html / attribute-child.html)
 Methods(p) == {c \in VisContents(p) : ~IsOwn(c)}
@@ -188,8 +196,8 @@ Inherited(p) == UNION {Unmasked(p, k) : k \in BaseIdx(p)}
 
 \* ---- producers on the page of object p (templatewriter/pages/__init__.py, table.py, sidebar.py)
 Namespace(p, pf) == {L(pf, Url(a), "namespace") : a \in {x \in Chain(p) : IsOwn(x)}}                 \* :249
-ChildTable(p, pf) == {L(pf, Url(c), "childTable") : c \in VisContents(p)}                             \* :283,:385; table.py:50
-BaseTable(p, pf) == IF IsCls(p) THEN {L(pf, Url(c), "baseTable") : c \in Inherited(p)} ELSE {}        \* :483
+ChildTable(p, pf) == {L(pf, PL(c, p), "childTable") : c \in VisContents(p)}                             \* :283,:385; table.py:50
+BaseTable(p, pf) == IF IsCls(p) THEN {L(pf, PL(c, p), "baseTable") : c \in Inherited(p)} ELSE {}        \* :483
 BaseName(p, pf) == IF IsCls(p)                                                                        \* :497 (no visibility test)
                    THEN {L(pf, Url(Mro(p)[j]), "baseName") : j \in {j \in 2..Len(Mro(p)) : \E k \in BaseIdx(p) : j = k \/ (2 <= j /\ j < k)}}
                    ELSE {}
@@ -203,7 +211,7 @@ Overridden(p, nm) == LET ks == {k \in 2..Len(Mro(p)) : Mro(p)[k] \in Ids /\ nm \
                         ELSE LET k == CHOOSE k \in ks : \A k2 \in ks : k <= k2
                              IN {c \in Contents(Mro(p)[k]) : Objs[c].name = nm}
 Overrides(p, pf) == IF IsCls(p)                                                                       \* no visibility test
-                    THEN {L(pf, Url(c), "overrides") : c \in UNION {Overridden(p, Objs[x].name) : x \in Methods(p) \cup {p}}} ELSE {}
+                    THEN {L(pf, PL(c, p), "overrides") : c \in UNION {Overridden(p, Objs[x].name) : x \in Methods(p) \cup {p}}} ELSE {}
 RECURSIVE OvSubs(_, _, _)      \* util.py:46 overriding_subclasses
 OvSubs(c, nm, first) == IF ~first /\ nm \in Names(Contents(c)) THEN {c}
                         ELSE UNION {OvSubs(s, nm, FALSE) : s \in {s \in Objs[c].subclasses : s \in Ids /\ Vis(s)}}
@@ -219,7 +227,7 @@ MemberDoc(p, pf) == UNION {{LM(pf, TagLink(t, FileOf(Objs[c].docsrc), pf), "memb
 \* epydoc2stan.py:814 format_summary: switch_context(None) -> always full urls
 SummaryRefs(pg, S) == UNION {{L(pg, Url(t), "summaryDoc") : t \in Objs[c].sumrefs} : c \in S}
 \* linker.py:242 _AnnotationLinker: switch_context(obj) -> the page of the annotated object
-Annotation(p, pf) == UNION {{L(pf, TagLink(t, pf, pf), "annotation") : t \in Objs[c].annrefs} : c \in Methods(p)}
+Annotation(p, pf) == UNION {{L(pf, TagLink(t, FileOf(p), pf), "annotation") : t \in Objs[c].annrefs} : c \in Methods(p)}
 
 \* sidebar.py: two sections (the object, and its package / module), items expand while level < depth
 RECURSIVE SideItems(_, _)
@@ -229,13 +237,13 @@ SideItems(ob, level) ==
 SideSections(p) == {p} \cup (IF IsMod(p) THEN (IF Objs[p].parent = None THEN {} ELSE {Objs[p].parent}) ELSE {ModuleOf(p)})
 SideListed(p) == UNION {SideItems(s, 1) : s \in SideSections(p)}
 SidebarTitle(p, pf) == {L(pf, Url(s), "sidebarTitle") : s \in SideSections(p)}                      \* sidebar.py:82
-SidebarItem(p, pf) == {L(pf, Url(c), "sidebarItem") : c \in SideListed(p)}                            \* sidebar.py:379
+SidebarItem(p, pf) == {L(pf, PL(c, p), "sidebarItem") : c \in SideListed(p)}                            \* sidebar.py:379
 
 NavTargets == {"index", "moduleIndex", "classIndex", "nameIndex"}                                     \* nav.html, footer.html
 Nav(pg) == {L(pg, [file |-> t, frag |-> ""], "nav") : t \in NavTargets}
 
 ObjPageLinks(p) ==
-  LET pf == FileOf(p) IN
+  LET pf == Written(p) IN
   Namespace(p, pf) \cup ChildTable(p, pf) \cup BaseTable(p, pf) \cup BaseName(p, pf) \cup ClassSignature(p, pf)
   \cup Subclasses(p, pf) \cup Overrides(p, pf) \cup OverriddenIn(p, pf) \cup HeaderLink(p, pf) \cup InHierarchy(p, pf)
   \cup Docstring(p, pf) \cup MemberDoc(p, pf) \cup Annotation(p, pf)
@@ -243,10 +251,10 @@ ObjPageLinks(p) ==
   \cup SidebarTitle(p, pf) \cup SidebarItem(p, pf) \cup Nav(pf)
 
 ObjPageEntries(p) ==
-  LET pf == FileOf(p) IN
-  {E(pf, "table", Url(c), MarkedPrivate(c)) : c \in VisContents(p) \cup (IF IsCls(p) THEN Inherited(p) ELSE {})}   \* table.py:30
+  LET pf == Written(p) IN
+  {E(pf, "table", PL(c, p), MarkedPrivate(c)) : c \in VisContents(p) \cup (IF IsCls(p) THEN Inherited(p) ELSE {})}   \* table.py:30
   \cup {E(pf, "detail", [file |-> pf, frag |-> Objs[c].name], MarkedPrivate(c)) : c \in Methods(p)}                  \* attributechild.py:33
-  \cup {E(pf, "sidebar", Url(c), IsPrivate(c)) : c \in SideListed(p)}                                                \* sidebar.py:329
+  \cup {E(pf, "sidebar", PL(c, p), IsPrivate(c)) : c \in SideListed(p)}                                                \* sidebar.py:329
 
 \* ---- summary.py
 RECURSIVE ModTree(_)      \* :20 moduleSummary ; the roots themselves are NOT filtered on visibility (:75)
@@ -291,7 +299,7 @@ Inventory == {i \in Ids : Vis(i) /\ InTree(i)}            \* sphinx.py:226 walks
 AnchorsOf(pg) ==                                            \* <a name=...> anchors
   IF pg = "classIndex" THEN CIListed                        \* summary.py:139
   ELSE IF pg = "nameIndex" THEN Initials                    \* nameIndex.html
-  ELSE UNION {{Objs[c].name, c} : c \in UNION {Methods(p) : p \in {p \in ObjPages : FileOf(p) = pg}}}   \* function-child.html
+  ELSE UNION {{Objs[c].name, c} : c \in UNION {Methods(p) : p \in {p \in ObjPages : Written(p) = pg}}}   \* function-child.html
 
 Pred ==
   [files   |-> HtmlFiles,
@@ -301,15 +309,17 @@ Pred ==
                \cup UNION {Nav(pg) : pg \in SummaryFiles \cup (IF Multi THEN {"index"} ELSE {})},
    entries |-> UNION {ObjPageEntries(p) : p \in ObjPages} \cup ModuleIndexEntries \cup ClassIndexEntries
                \cup NameIndexEntries \cup UndoccedEntries \cup IndexEntries,
-   inv     |-> Inventory, docs |-> Docs, search |-> Search, fsearch |-> Search]
+   inv     |-> Inventory, docs |-> Docs, search |-> Search, fsearch |-> Search,
+   encfiles |-> {FileOf(i) : i \in {i \in ObjPages : Written(i) # FileOf(i)}}]
 PredView == [i \in Ids |-> [id |-> i, parent |-> Objs[i].parent, priv |-> Objs[i].priv, own |-> IsOwn(i),
                             file |-> FileOf(i), frag |-> FragOf(i), intree |-> InTree(i),
-                            root |-> Objs[i].parent = None, docsrc |-> Objs[i].docsrc]]
+                            root |-> Objs[i].parent = None, docsrc |-> Objs[i].docsrc, bases |-> Range(Objs[i].bases)]]
 
 (***************************************************************************)
 (* 4. The properties, over an object view O (id -> [parent, priv, own,     *)
-(*    file, frag, intree, root, docsrc]) and a site S.  Written from the   *)
-(*    statements of C11 / C12, not from the code.                          *)
+(*    file, frag, intree, root, docsrc, bases]) and a site S.  From the     *)
+(*    statements of C11 / C12, not from the code.  A link means the file   *)
+(*    with the DECODED name (what a browser / web server resolves).        *)
 (***************************************************************************)
 RECURSIVE HiddenIn(_, _)   \* "an object whose privacy is HIDDEN, and everything inside it"
 HiddenIn(O, i) == O[i].priv = "HIDDEN" \/ (O[i].parent # None /\ O[i].parent \in DOMAIN O /\ HiddenIn(O, O[i].parent))
@@ -337,7 +347,7 @@ Targets(O, multi, f, g) == f \in HidPages(O, multi) \/ <<f, g>> \in HidFrags(O)
 HiddenTraces(O, S, multi) ==
   LET hp == HidPages(O, multi)  hf == HidFrags(O)  hi == HidIds(O)
       tg(f, g) == f \in hp \/ <<f, g>> \in hf
-  IN  {[trace |-> "file", page |-> "", file |-> f, frag |-> "", prod |-> ""] : f \in hp \cap S.files}
+  IN  {[trace |-> "file", page |-> "", file |-> f, frag |-> "", prod |-> ""] : f \in hp \cap (S.files \cup S.encfiles)}
  \cup {[trace |-> "anchor", page |-> "", file |-> x[1], frag |-> x[2], prod |-> ""] :
            x \in {x \in hf : x[1] \in DOMAIN S.anchors /\ x[2] \in S.anchors[x[1]]}}
  \cup {[trace |-> "link", page |-> l.page, file |-> l.file, frag |-> l.frag, prod |-> l.prod] : l \in {l \in S.links : tg(l.file, l.frag)}}
@@ -360,10 +370,19 @@ PrivateMarked(O, S)        == Unmarked(O, S) = {}
 (* 5. Known findings (DESIGN.md 2.5): named predicates over one failing    *)
 (*    instance; the harness has a Python twin of each.                     *)
 (***************************************************************************)
+\* the page of an object whose name needs percent-encoding is written under the ENCODED name (writer.py:120)
+KF_EncodedFilename(S, f) == f \in S.encfiles
 \* a superseded duplicate ("name 0", not in parent.contents) and everything below it: still in allobjects
 Superseded(O) == {i \in DOMAIN O : ~HiddenIn(O, i) /\ ~O[i].intree}
+IsSupersededUrl(O, f, g) == \E i \in Superseded(O) : O[i].file = f /\ O[i].frag = g
 AllObjectsProds == {"nameIndex", "undocced", "classIndex", "searchDoc"}
-KF_SupersededListed(O, l) == l.prod \in AllObjectsProds /\ \E i \in Superseded(O) : O[i].file = l.file /\ O[i].frag = l.frag
+\* ... listed by the producers that iterate allobjects, although no page / anchor is written for it
+KF_SupersededListed(O, l) == l.prod \in AllObjectsProds /\ IsSupersededUrl(O, l.file, l.frag)
+\* ... linked as a base class / inherited member / override (class A(A) redefinition idiom), and the subclass of a
+\* superseded base never enters classIndex.html, so its "View In Hierarchy" anchor is missing
+KF_SupersededNotRendered(O, l) == \/ (l.prod \notin AllObjectsProds /\ IsSupersededUrl(O, l.file, l.frag))
+                                  \/ (l.prod = "inhierarchy" /\ l.file = "classIndex" /\ l.frag \in DOMAIN O
+                                      /\ \E b \in O[l.frag].bases : b \in Superseded(O))
 \* inherited docstring: "#frag" made for the source's page, rendered on the inheriting member's page
 KF_InheritedDocLink(O, l) == l.prod = "memberDoc" /\ l.file = l.page /\ l.frag # "" /\ l.member \in DOMAIN O
                              /\ O[l.member].docsrc # l.member
@@ -373,21 +392,25 @@ KF_LinkToHidden(O, multi, l) == l.prod \in TagLinkProds /\ Targets(O, multi, l.f
 \* the lists of root modules (moduleIndex, index.html) are not filtered on visibility
 KF_HiddenRootListed(O, l) == l.prod \in {"moduleIndex", "indexRoots"} /\ \E r \in HiddenSet(O) : O[r].root /\ O[r].file = l.file /\ l.frag = ""
 
-KfLink(O, multi, l) == IF KF_SupersededListed(O, l) THEN "superseded-duplicate-listed"
-                       ELSE IF KF_InheritedDocLink(O, l) THEN "inherited-docstring-samepage-link"
-                       ELSE IF KF_LinkToHidden(O, multi, l) THEN "link-to-hidden-object"
-                       ELSE IF KF_HiddenRootListed(O, l) THEN "hidden-root-listed"
-                       ELSE "none"
+KfLink(O, S, multi, l) == IF KF_EncodedFilename(S, l.file) THEN "percent-encoded-page-filename"
+                          ELSE IF KF_SupersededListed(O, l) THEN "superseded-duplicate-listed"
+                          ELSE IF KF_InheritedDocLink(O, l) THEN "inherited-docstring-samepage-link"
+                          ELSE IF KF_LinkToHidden(O, multi, l) THEN "link-to-hidden-object"
+                          ELSE IF KF_HiddenRootListed(O, l) THEN "hidden-root-listed"
+                          ELSE IF KF_SupersededNotRendered(O, l) THEN "superseded-duplicate-not-rendered"
+                          ELSE "none"
+KfObj(O, S, i) == IF KF_EncodedFilename(S, O[i].file) THEN "percent-encoded-page-filename"
+                  ELSE IF i \in Superseded(O) THEN "superseded-duplicate-not-rendered" ELSE "none"
 
 Verdict(O, S, multi) ==
-  [LinksResolve |-> {[page |-> l.page, file |-> l.file, frag |-> l.frag, prod |-> l.prod, kf |-> KfLink(O, multi, l)] : l \in BadLinks(S)}
+  [LinksResolve |-> {[page |-> l.page, file |-> l.file, frag |-> l.frag, prod |-> l.prod, kf |-> KfLink(O, S, multi, l)] : l \in BadLinks(S)}
                     \cup {[page |-> "all-documents", file |-> d.file, frag |-> d.frag, prod |-> "searchDoc",
-                           kf |-> KfLink(O, multi, [page |-> "all-documents", file |-> d.file, frag |-> d.frag, prod |-> "searchDoc", member |-> ""])] : d \in BadDocs(S)},
-   VisibleHasPage |-> {[obj |-> i, kf |-> IF i \in Superseded(O) THEN "superseded-duplicate-listed" ELSE "none"] : i \in NoPage(O, S)},
-   VisibleMemberHasAnchor |-> {[obj |-> i, kf |-> IF i \in Superseded(O) THEN "superseded-duplicate-listed" ELSE "none"] : i \in NoAnchor(O, S)},
+                           kf |-> KfLink(O, S, multi, [page |-> "all-documents", file |-> d.file, frag |-> d.frag, prod |-> "searchDoc", member |-> ""])] : d \in BadDocs(S)},
+   VisibleHasPage |-> {[obj |-> i, kf |-> KfObj(O, S, i)] : i \in NoPage(O, S)},
+   VisibleMemberHasAnchor |-> {[obj |-> i, kf |-> KfObj(O, S, i)] : i \in NoAnchor(O, S)},
    HiddenNoTrace |-> {[trace |-> t.trace, page |-> t.page, file |-> t.file, frag |-> t.frag, prod |-> t.prod,
                        kf |-> IF t.trace \in {"link", "entry"}
-                              THEN KfLink(O, multi, [page |-> t.page, file |-> t.file, frag |-> t.frag, prod |-> t.prod, member |-> ""])
+                              THEN KfLink(O, S, multi, [page |-> t.page, file |-> t.file, frag |-> t.frag, prod |-> t.prod, member |-> ""])
                               ELSE "none"] : t \in HiddenTraces(O, S, multi)},
    PrivateMarked |-> Unmarked(O, S)]
 
@@ -410,13 +433,14 @@ ObsSite == [files   |-> Range(Case.site.files),
             anchors |-> [pg \in DOMAIN Case.site.anchors |-> Range(Case.site.anchors[pg])],
             links   |-> Range(Case.site.links), entries |-> Range(Case.site.entries),
             inv     |-> Range(Case.site.inv), docs |-> Range(Case.site.docs),
-            search  |-> Range(Case.site.search), fsearch |-> Range(Case.site.fsearch)]
+            search  |-> Range(Case.site.search), fsearch |-> Range(Case.site.fsearch),
+            encfiles |-> Range(Case.site.encfiles)]
 RECURSIVE CaseInTree(_)
 CaseInTree(i) == Case.objs[i].incontents /\ (Case.objs[i].parent = None
                     \/ (Case.objs[i].parent \in DOMAIN Case.objs /\ CaseInTree(Case.objs[i].parent)))
 ObsView == [i \in DOMAIN Case.objs |-> LET o == Case.objs[i] IN
               [id |-> i, parent |-> o.parent, priv |-> o.priv, own |-> o.ownpage, file |-> o.file, frag |-> o.frag,
-               intree |-> CaseInTree(i), root |-> o.parent = None, docsrc |-> o.docsrc]]
+               intree |-> CaseInTree(i), root |-> o.parent = None, docsrc |-> o.docsrc, bases |-> Range(o.bases)]]
 ObsMulti == Cardinality(Range(Case.roots)) > 1
 
 Modelled == Range(Case.modelled)       \* producers / entry kinds whose output the model predicts for this case
@@ -437,7 +461,7 @@ Diff(S) ==
       fsearch_missing |-> P.fsearch \ S.fsearch, fsearch_extra |-> S.fsearch \ P.fsearch]
 \* the realised project is the object model the skeleton describes (enum cases), as the real System sees it
 ModelDiff ==
-  LET flds(o) == [name |-> o.name, cls |-> o.cls, parent |-> o.parent, priv |-> o.priv, incontents |-> o.incontents,
+  LET flds(o) == [qid |-> o.qid, name |-> o.name, cls |-> o.cls, parent |-> o.parent, priv |-> o.priv, incontents |-> o.incontents,
                   bases |-> o.bases, mro |-> o.mro, subclasses |-> o.subclasses, doc |-> o.doc, docsrc |-> o.docsrc,
                   initial |-> o.initial, dupname |-> o.dupname, dupfull |-> o.dupfull]
       real == FromProjection(Case)
